@@ -6,7 +6,7 @@ TARGETS = [("fn", Q + "._get_four_rates"), ("fn", Q + "._get_four_denominators")
 TARGETS_THOROUGH = [("fn", Q + ".update@all")]
 LEVEL = "exploration"
 LEVEL_TEXT = ('Bounded: real LinearFourRates against a plain-Python specification with the Monte-Carlo bounds re-drawn under the same numpy seed schedule (confusion matrix, rates, statistic update rule, burn_in / subsample, tracked subsets, bounds cache keyed by rounded rate / denominator, retraining_recs). Statistical validity of the bounds is not claimed. Claimed as exploration.')
-ASSUMPTIONS = A_COMMON + ['parallelize=True (joblib threads) is excluded (A-SEQ)',
+ASSUMPTIONS = A_COMMON + ['parallelize=True (joblib threads) is excluded from the deductive tier and, with several tracked rates, from the bounded tier (A-SEQ: the threads race on the global numpy generator); with ONE tracked rate the parallel branch is a single task and is checked boundedly against the same specification',
     "LinearFourRates._update_bounds_dict returns some record of four bounds and may extend the cache, touching nothing else: verified "
     "with the cache as an opaque dictionary of dictionaries of bound records (reads arbitrary, writes dropped); _sim_bounds returns a "
     "record of four reals and modifies nothing: verified with the Monte-Carlo block (exps .. result_vector) ABSTRACTED, i.e. not verified; "
